@@ -3,7 +3,7 @@ from lib import terms
 from props import dbcommon as D
 
 ID = 'C14'
-IMPORTS = ['Engine.Db', 'Engine.DbCursor', 'Engine.DbFacts', 'Engine.RunDb', 'Engine.DbProg', 'Engine.RunDbProg']
+IMPORTS = ['Engine.Db', 'Engine.DbCursor', 'Engine.DbFacts', 'Engine.DbOpen', 'Engine.RunDb', 'Engine.DbProg', 'Engine.RunDbProg']
 THEOREMS = ['C14_cursor_visits_snapshot', 'C14_query_snapshot_at_first_next', 'C14_retract_at_most_once',
             'C14_retract_at_most_once_from_init', 'C14_no_lost_update', 'C14_cursor_finite', 'C14_retract_goal_finite',
             'C14_compiled_no_lost_update', 'C14_compiled_retract_at_most_once', 'C14_retract_cursor_in_snapshot_order',
@@ -20,7 +20,13 @@ RULE = ('(a) event histories with 1-4 simultaneously suspended cursors (queries 
         'predicate in the rest of the body, mostly failure-driven; half of them with !, fail, ;, -> (with / without else), \\+ '
         'around the goals and updates (cuts also in conditions, negations, helper predicates); compiled by the real compiler; compared with the model '
         'Engine/DbProg.v (answers, final facts, number of facts stored).  Non-trivial (c): an enumerating goal is followed in '
-        'the same body by an update of its predicate.  Distinct by hash of the case.')
+        'the same body by an update of its predicate.  (d) round 3: event histories in which 2-3 cursors (queries, retracts) '
+        'on ONE predicate are started one after the other and finished in an order that is NOT last-in-first-out - an older '
+        'cursor is exhausted, closed or dropped (`del` without close) while a younger one stays suspended - followed by '
+        'assertz / asserta / retract / retractall (with and without other updates in between) and the younger cursor resumed '
+        'to exhaustion; histories with operations whose arguments are variables of open cursors (see C07).  Intrinsic oracle '
+        'for every query cursor: never more answers than its predicate had facts at its first next(); an all-variables query '
+        'returns exactly those facts in order.  Distinct by hash of the case.')
 TRUSTED_BASE = [
     'Coq 8.16.1 kernel (coqc); vm_compute for the in-Coq evaluation of the model on every case',
     'no axioms: all C14 theorems are closed under the global context',
@@ -235,6 +241,18 @@ def gen(rng, tier):
         cases.append(gen_prog(rng))
     for i in range(220 if tier == 'quick' else 3500):
         cases.append(D.gen_dbprog(rng, loopy=0.7))
+    # round 3: cursors finished in non-LIFO order (older first, younger resumed after an update); operations over the
+    # variables of open cursors
+    for i in range(120 if tier == 'quick' else 2500):
+        c = D.gen_nonlifo(rng)
+        c['kind'] = 'events'
+        cases.append(c)
+    for i in range(30 if tier == 'quick' else 500):
+        c = D.gen_open_history(rng)
+        c['kind'] = 'events'
+        cases.append(c)
+    for i in range(30 if tier == 'quick' else 500):
+        cases.append(D.decorate_py(rng, D.gen_dbprog(rng, loopy=0.7)))
     return cases
 
 def builtin_corpus():
@@ -263,6 +281,17 @@ def builtin_corpus():
     c(['assert', False, f('p', I(1)), 'api'], ['assert', False, f('p', I(2)), 'api'], ['start', 0, 'r', f('p', v(0)), 'compiled'],
       ['start', 1, 'q', 'p', [v(0)], 'compiled'], ['next', 0], ['next', 1], ['clear'], ['assert', False, f('p', I(2)), 'api'],
       ['next', 0], ['next', 1], ['next', 1])
+    # two independent cursors on one predicate; the OLDER one finishes first (exhausted / closed / dropped), then a fact is
+    # added, then the younger one - suspended all the time - is resumed: it must not see the new fact (non-LIFO order)
+    for fin in ([['next', 0], ['next', 0]], [['close', 0]], [['drop', 0]]):
+        for upd in (['assert', False, f('p', I(3)), 'builtin'], ['assert', False, f('p', I(3)), 'api'], ['assert', True, f('p', I(3)), 'builtin']):
+            c(['assert', False, f('p', I(1)), 'builtin'], ['assert', False, f('p', I(2)), 'builtin'],
+              ['start', 0, 'q', 'p', [v(0)], 'api'], ['start', 1, 'q', 'p', [v(0)], 'api'], ['next', 0], ['next', 1],
+              *fin, upd, ['next', 1], ['next', 1], ['next', 1])
+    # the same with three cursors, the middle one a retract, the youngest resumed last
+    c(['assert', False, f('p', I(1)), 'api'], ['assert', False, f('p', I(2)), 'api'], ['start', 0, 'q', 'p', [v(0)], 'api'], ['next', 0],
+      ['start', 1, 'r', f('p', v(0)), 'builtin'], ['start', 2, 'q', 'p', [v(0)], 'compiled'], ['next', 2], ['drop', 0], ['next', 1],
+      ['close', 1], ['assert', False, f('p', I(3)), 'api'], ['assert', False, f('p', I(4)), 'builtin'], ['next', 2], ['next', 2], ['next', 2])
     for src, facts, q, ans, db in [
         ('t(X) :- assertz(p(1)), p(X), tick, assertz(p(2)).\n', [], ['t', 1], [[I(1)]], {'p': [[I(1)], [I(2)]]}),
         ('go :- p(X), tick, retract(p(X)), fail.\ngo.\n', [1, 2, 3], ['go', 0], [[]], {'p': []}),
@@ -307,6 +336,7 @@ def nontrivial(case, io):
     for e, o in zip(case['events'], io):
         if len(o) != 2:
             break
+        e = D.base_event(e)
         upd = None
         if e[0] == 'start':
             key_of[e[1]] = (e[3], len(e[4])) if e[2] == 'q' else D.callable_key(e[3])
@@ -319,7 +349,7 @@ def nontrivial(case, io):
                 live[e[1]] = k
             else:
                 live.pop(e[1], None)
-        elif e[0] == 'close':
+        elif e[0] in ('close', 'drop'):
             live.pop(e[1], None)
         elif e[0] == 'assert':
             upd = (D.callable_key(e[2]), None)
@@ -367,11 +397,14 @@ def distribution(cases, obs):
             d['ended'][e] = d['ended'].get(e, 0) + 1
             continue
         live = set(); m = 0
+        sh = c.get('shape', 'random')
+        d.setdefault('history_shapes', {})
+        d['history_shapes'][sh] = d['history_shapes'].get(sh, 0) + 1
         for e in c['events']:
             d['events'][e[0]] = d['events'].get(e[0], 0) + 1
             if e[0] == 'start':
                 live.add(e[1])
-            elif e[0] == 'close':
+            elif e[0] in ('close', 'drop'):
                 live.discard(e[1])
             m = max(m, len(live))
         d['max_live_cursors'][str(m)] = d['max_live_cursors'].get(str(m), 0) + 1
